@@ -199,9 +199,13 @@ func (ir *IntrospectionResolver) resolveType(schema *ast.Schema, typ *ast.Type, 
 		case "inputFields":
 			inputFields := []map[string]interface{}{}
 			for _, fi := range namedType.Fields {
-				// call resolveField instead of resolveInputValue because it has
-				// the right type and is a superset of it
-				inputFields = append(inputFields, ir.resolveField(schema, fi, f.SelectionSet))
+				// an input field is an input value: it has a default value and no arguments
+				inputFields = append(inputFields, ir.resolveInputValue(schema, &ast.ArgumentDefinition{
+					Name:         fi.Name,
+					Description:  fi.Description,
+					Type:         fi.Type,
+					DefaultValue: fi.DefaultValue,
+				}, f.SelectionSet))
 			}
 			result[f.Alias] = inputFields
 		default:
